@@ -11,7 +11,8 @@ use std::process::{Command, Stdio};
 use std::sync::mpsc;
 use std::time::Duration;
 
-const KINDS: [&str; 12] = ["delete", "duplicate", "swap-next", "remove-block", "num-to-text", "num-to-huge", "num-to-big", "num-to-negative", "num-to-zero", "num-to-99", "rename-ref", "truncate-here"];
+const KINDS: [&str; 14] = ["delete", "duplicate", "swap-next", "remove-block", "num-to-text", "num-to-huge", "num-to-big", "num-to-negative", "num-to-zero", "num-to-99", "rename-ref", "truncate-here",
+    "truncate-after-quote", "truncate-mid-line"];
 
 #[derive(Clone)]
 struct FileSpec {
@@ -169,6 +170,26 @@ pub fn damage(lines: &[&str], li: usize, kind: &str, cap: usize) -> Option<Strin
             Some(with_line(&format!("{}\"{}_X\"{}", &l[..a], &l[a + 1..b], &l[b + 1..])))
         }
         "truncate-here" => Some(join_lines(lines[..li].iter().copied(), cap)),
+        // the file ends inside this line: right after the quote that opens a value (or a name), or half way through the line
+        "truncate-after-quote" => {
+            let l = lines[li];
+            let at = match l.find('=') {
+                Some(e) => l[e..].find('"').map(|q| e + q + 1),
+                None => l.find('"').map(|q| q + 1),
+            }?;
+            Some(join_lines(lines[..li].iter().copied().chain(std::iter::once(&l[..at])), cap))
+        }
+        "truncate-mid-line" => {
+            let l = lines[li];
+            if l.len() < 2 {
+                return None;
+            }
+            let mut at = l.len() / 2;
+            while !l.is_char_boundary(at) {
+                at += 1;
+            }
+            Some(join_lines(lines[..li].iter().copied().chain(std::iter::once(&l[..at])), cap))
+        }
         _ => None,
     }
 }
@@ -176,6 +197,30 @@ pub fn damage(lines: &[&str], li: usize, kind: &str, cap: usize) -> Option<Strin
 struct Ctx {
     catalog: hulc::bdl::DB,
     tmp: PathBuf,
+    /// the file being damaged (for a result file: its project directory holds the project it belongs to)
+    src: PathBuf,
+}
+
+/// a damaged HULC result file is used the way the tools use it: in a copy of its project directory, through
+/// `hulc2model::collect_hulc_data(dir, true, true)` (parser + `fix_ecdata_from_extra`)
+fn process_result_file(ctx: &Ctx, text: &str) -> Result<bool, anyhow::Error> {
+    let dir = ctx.tmp.join(format!("proj{}", std::process::id()));
+    let srcdir = ctx.src.parent().map(|p| p.to_path_buf()).unwrap_or_default();
+    let name = ctx.src.file_name().map(|n| n.to_os_string()).unwrap_or_default();
+    if !dir.join(".ready").exists() || std::fs::read_to_string(dir.join(".ready")).ok().as_deref() != Some(&*srcdir.to_string_lossy()) {
+        std::fs::remove_dir_all(&dir).ok();
+        std::fs::create_dir_all(&dir)?;
+        for e in std::fs::read_dir(&srcdir)?.flatten() {
+            let n = e.file_name().to_string_lossy().to_lowercase();
+            if n.ends_with(".ctehexml") || n == "kygananciassolares.txt" || n == "newbdl_o.tbl" {
+                std::fs::copy(e.path(), dir.join(e.file_name()))?;
+            }
+        }
+        std::fs::write(dir.join(".ready"), srcdir.to_string_lossy().as_bytes())?;
+    }
+    let bytes: Vec<u8> = text.chars().map(|c| if (c as u32) < 256 { c as u8 } else { b'?' }).collect();
+    std::fs::write(dir.join(&name), bytes)?;
+    Ok(hulc2model::collect_hulc_data(dir.to_string_lossy(), true, true).is_ok())
 }
 
 /// message class of a panic: the text before the first ':' (what follows names the offending element), digits masked
@@ -234,12 +279,16 @@ fn process(ctx: &Ctx, kind: &str, text: &str) -> Result<bool, anyhow::Error> {
             let data = hulc::ctehexml::CtehexmlData { bdldata: with_catalog(bdl, &ctx.catalog), ..Default::default() };
             Ok(Model::try_from(&data).is_ok())
         }
-        "kyg" => Ok(hulc::kyg::parse(text).is_ok()),
+        "kyg" => {
+            let parsed = hulc::kyg::parse(text).is_ok();
+            Ok(process_result_file(ctx, text)? && parsed)
+        }
         "tbl" => {
             let p = ctx.tmp.join(format!("t{}.tbl", std::process::id()));
             let bytes: Vec<u8> = text.chars().map(|c| if (c as u32) < 256 { c as u8 } else { b'?' }).collect();
             std::fs::write(&p, bytes)?;
-            Ok(hulc::tbl::parse(&p).is_ok())
+            let parsed = hulc::tbl::parse(&p).is_ok();
+            Ok(process_result_file(ctx, text)? && parsed)
         }
         _ => Ok(false),
     }
@@ -260,7 +309,7 @@ fn worker(args: &Args) -> i32 {
     let f = &fs[fi];
     let tmp = PathBuf::from(args.extra.get("tmp").cloned().unwrap_or_else(|| "/verif/.cache/run/c19-tmp".into()));
     std::fs::create_dir_all(&tmp).ok();
-    let ctx = Ctx { catalog: hulc::ctehexml::load_lider_catalog().unwrap_or_default(), tmp };
+    let ctx = Ctx { catalog: hulc::ctehexml::load_lider_catalog().unwrap_or_default(), tmp, src: f.path.clone() };
     let text = decode(&std::fs::read(&f.path).unwrap_or_default());
     let lines: Vec<&str> = text.lines().collect();
     let loc = std::sync::Arc::new(std::sync::Mutex::new(String::new()));
@@ -273,6 +322,8 @@ fn worker(args: &Args) -> i32 {
     let out = std::io::stdout();
     let to: usize = args.extra.get("to").and_then(|s| s.parse().ok()).unwrap_or(usize::MAX);
     let total = (lines.len() * KINDS.len()).min(to);
+    // the result files are short: a denser slice of their lines
+    let stride = if f.kind == "kyg" || f.kind == "tbl" { (stride / 20).max(1) } else { stride };
     let mut k = from;
     while k < total {
         let (li, ki) = (k / KINDS.len(), k % KINDS.len());
@@ -306,7 +357,7 @@ fn one_case(args: &Args, path: &str) -> i32 {
     let edit = args.extra.get("edit").cloned().unwrap_or_else(|| "delete".into());
     let tmp = PathBuf::from(args.extra.get("tmp").cloned().unwrap_or_else(|| "/verif/.cache/run/c19-tmp".into()));
     std::fs::create_dir_all(&tmp).ok();
-    let ctx = Ctx { catalog: hulc::ctehexml::load_lider_catalog().unwrap_or_default(), tmp };
+    let ctx = Ctx { catalog: hulc::ctehexml::load_lider_catalog().unwrap_or_default(), tmp, src: p.clone() };
     let text = decode(&std::fs::read(&p).unwrap_or_default());
     let lines: Vec<&str> = text.lines().collect();
     let Some(t) = damage(&lines, li, &edit, text.len()) else {
@@ -367,7 +418,7 @@ fn edge_cases(cw: &mut CaseWriter, seed: u64, n_random: usize) {
 /// damaged generated projects with the model's verdict: blocks -> typed elements -> conversion skeleton
 fn verdict_cases(cw: &mut CaseWriter, seed: u64, n: usize) {
     let mut rng = crate::rng::Rng::new(seed ^ 0x7E2D);
-    let ctx = Ctx { catalog: Default::default(), tmp: PathBuf::from("/nonexistent") };
+    let ctx = Ctx { catalog: Default::default(), tmp: PathBuf::from("/nonexistent"), src: PathBuf::new() };
     let mut i = 0;
     while i < n {
         let p = crate::bdlgen::gen_proj(&mut rng, &crate::bdlgen::GenOpts { rotated_spaces: i % 3 == 2, polygon_outlines: i % 2 == 1 });
